@@ -115,7 +115,9 @@ theorem step_bridge (rFrom rTo : ℝ) (step duration : ℤ) :
   unfold NewStep
   by_cases h : rFrom = rTo
   · simp [h]
-  · simp only [h, if_false, List.nil_append, toTree]
+  · -- the source may write the comparison either way round (`from == to` / `to == from`)
+    have h' : ¬ rTo = rFrom := fun e => h e.symm
+    simp only [h, h', if_false, List.nil_append, toTree]
     rw [toTrees_flatMap_single]
 
 end Pandora.Bridge.C02IStep
